@@ -379,7 +379,8 @@ impl Interp {
             self.codec_lines(codec, &bytes, tsize);
         }
         self.emit0(&format!("es {}", fmt_entries(&es)));
-        let src = Src::new(Arc::new(bytes.clone()));
+        // the open itself goes through the configured (possibly choppy) source
+        let src = self.new_src(Arc::new(bytes.clone()));
         let r = catch_unwind(AssertUnwindSafe(|| Reader::new(src)));
         let f1 = match r {
             Ok(Ok(rd)) => format!(
